@@ -110,6 +110,13 @@ Proof. exact errors2_masked_when_not_fitted. Qed.
 (* a singular covariance matrix leaves nan (not -2) in the stderr of every varying parameter *)
 Theorem C03_singular_covariance_is_nan : singular_fallback_is_nan = true.
 Proof. exact singular_fallback_char. Qed.
+(* priorized fitting: an uncertainty that the chosen stage does not fit is copied from the input catalogue; whatever the
+   catalogue holds there (nan when it has no err_* columns, 0, negative, inf) the row gets a positive finite value or -1,
+   and a known value (positive, or -1) is passed on as it is.  (Refuted/C03_error_copies.v: the plain copy) *)
+Theorem C03_copied_errors_masked : forall c, err_cls_ok (copied_error c) = true.
+Proof. exact copied_error_ok. Qed.
+Theorem C03_copied_errors_kept : forall c, err_cls_ok c = true -> c <> PyNone -> copied_error c = c.
+Proof. exact copied_error_keeps_known. Qed.
 
 (* ---- int_flux ---- *)
 (* what the code computes: peak * (sx CC2FHWM) * (sy CC2FHWM) / (beam_a beam_b) in pixels = peak 8 ln2 sx sy / (..);
@@ -196,6 +203,7 @@ Print Assumptions C03_numbered_from_zero.
 Print Assumptions C03_shape_range.
 Print Assumptions C03_flags_seven_bits.
 Print Assumptions C03_errors_masked.
+Print Assumptions C03_copied_errors_masked.
 Print Assumptions C03_intflux_partial.
 Print Assumptions C03_row_ok_iff.
 Print Assumptions C03_cat_ok_iff.
